@@ -51,6 +51,12 @@ GO
   PFUNCS=handleOffer,filterContentKeys,filterContentKeysV0,filterContentKeysV1,cacheTransferringKeys,deleteTransferringContentKeys,transferringCount,handleOfferedContents,processOffer,offer,offerWorker,getOrStoreHighestVersion,handleFindContent
   for f in portal_protocol portal_protocol_v1; do
     "$B/instr" -recv PortalProtocol -funcs "$PFUNCS" -hook VerifYieldProto "$REPO/portalwire/$f.go" "$ID/$f.go.new" 2>/dev/null || { echo "build: instrumenting $f.go failed" >&2; exit 2; }
+    if [ "$f" = portal_protocol ]; then
+      # second pass, own hook: gossip target selection is only scheduled where an engine asks for it (the
+      # harness itself calls Gossip from its stepping goroutine in the other engines)
+      "$B/instr" -recv PortalProtocol -funcs GossipAndReturnPeers -hook VerifYieldGossip "$ID/$f.go.new" "$ID/$f.go.new2" 2>/dev/null || { echo "build: instrumenting $f.go (gossip) failed" >&2; exit 2; }
+      mv "$ID/$f.go.new2" "$ID/$f.go.new"
+    fi
     if ! cmp -s "$ID/$f.go.new" "$ID/$f.go"; then mv "$ID/$f.go.new" "$ID/$f.go"; else rm -f "$ID/$f.go.new"; fi
   done
   cat > "$ID/zz_verif_yield.go.new" <<'GO'
@@ -65,6 +71,15 @@ var VerifTableYieldHook func(site string)
 
 func VerifYieldTable(site string) {
 	if h := VerifTableYieldHook; h != nil {
+		h(site)
+	}
+}
+
+// VerifGossipYieldHook is called at every yield point of the instrumented gossip target selection.
+var VerifGossipYieldHook func(site string)
+
+func VerifYieldGossip(site string) {
+	if h := VerifGossipYieldHook; h != nil {
 		h(site)
 	}
 }
